@@ -110,6 +110,7 @@ type State struct {
 	noBlock       bool
 	pendingGo     []*Deferred
 	goDepth       int
+	choiceSeq     int
 	lockOwner     map[string]int // vPar: 1 + thread that holds the mutex
 	fmtArgs   []Value
 	lastTokOperands []Value
